@@ -327,7 +327,22 @@ def make_helpers(exe):
             return z3.BoolVal(False)
         return z3.BoolVal(a._p.obj is b._p.obj and a._p.obj is not None)
 
-    return dict(And=h_and, Or=h_or, Not=h_not, implies=h_implies, ite=h_ite, iff=h_iff, forall=forall,
+    def sqrt_of(x):
+        """the real square root of x as the executed code sees it: the same memoised symbol t (t >= 0, t*t == x) the sqrt hook
+        introduces for a syntactically equal argument (real mode only)"""
+        from .libc import _memo
+        if sem.num_mode != 'real':
+            raise SpecError('sqrt_of outside real mode')
+
+        def mk():
+            exe.nsym += 1
+            t = z3.Real('sqrt#%d' % exe.nsym)
+            exe.axioms.append(z3.And(t >= 0, t * t == x))
+            exe.__dict__.setdefault('sqrt_defs', {})[t.get_id()] = (t, x)
+            return t
+        return _memo(exe, 'sqrt', x, mk)
+
+    return dict(sqrt_of=sqrt_of, And=h_and, Or=h_or, Not=h_not, implies=h_implies, ite=h_ite, iff=h_iff, forall=forall,
                 exists=exists, forall_real=forall_real, exists_real=exists_real, u64=u64, is_pow2=is_pow2, arr=arr, off=off, NULL=NULL, pmod=pmod, elem=elem, tagat=tagat, at=at, imin=imin, imax=imax,
                 iabs=iabs, lit=lit, sizeof=sizeof, num_of_int=num_of_int, byte_of_num=byte_of_num, bool_of_num=bool_of_num, num_zero=num_zero, trunc=trunc, isnan=isnan, fp=fp, real=real, dbl=dbl, same_obj=same_obj,
                 strncmp_of=strncmp_of, true=z3.BoolVal(True), false=z3.BoolVal(False), z3=z3, Select=z3.Select, Store=z3.Store,
